@@ -54,8 +54,8 @@ def check_case(case, stats=None, K=oracle.K_QUICK, opts=None):
             if k in ("reject", "unsupported", "srcerror", "nan", "inconclusive"):
                 why = k
                 if k == "reject":
-                    why = "reject:" + ("registers" if "out of registers" in r["error"] else "other")
-                    if "out of registers" not in r["error"]:
+                    why = "reject:" + ("registers" if oracle.out_of_registers(r["error"]) else "other")
+                    if not oracle.out_of_registers(r["error"]):
                         stats.notes["reject:" + oracle.norm_error(r["error"])] += 1
                 elif k == "unsupported":
                     why = "unsupported:" + r["why"][:40]
